@@ -506,7 +506,11 @@ func (h *hrun) opDial(dnode int, kind string, l *hlis, s *hsock) {
 		ename = ename[i+1:]
 	}
 	var ac *netceptor.Conn
-	deadline := time.After(3 * time.Second)
+	// the hand-over is asynchronous (the accepting side still has to take the stream and read the
+	// marker) and this process shares the machine with many others: only a hand-over that does
+	// not happen at all is judged, the latency is recorded
+	tDialled := time.Now()
+	deadline := time.After(45 * time.Second)
 	for ac == nil {
 		select {
 		case x := <-l.acc:
@@ -518,10 +522,21 @@ func (h *hrun) opDial(dnode int, kind string, l *hlis, s *hsock) {
 				h.res.hist("accepted-for-a-dial-that-gave-up")
 			}
 		case <-deadline:
-			h.res.violate("a successful dial was not handed to Accept within 3s", "accept-missing", h.labels)
+			h.res.violate(fmt.Sprintf("dial %s -> %s:%q succeeded but the connection was not handed to Accept within 45s", h.names[dnode], h.names[tnode], tname), "accept-missing",
+				map[string]interface{}{"history": h.labels, "stacks": stacksOf("acceptLoop", "Listener).Accept", "baseServer).accept", "baseServer).Accept")})
 			h.aborted = true
 			return
 		}
+	}
+	switch lat := time.Since(tDialled); {
+	case lat > 3*time.Second:
+		h.res.hist("accept-latency>3s")
+	case lat > 500*time.Millisecond:
+		h.res.hist("accept-latency<=3s")
+	case lat > 50*time.Millisecond:
+		h.res.hist("accept-latency<=500ms")
+	default:
+		h.res.hist("accept-latency<=50ms")
 	}
 	h.nextID++
 	hc := &hconn{id: h.nextID, dnode: dnode, lis: l, d: c, a: ac, ename: ename}
